@@ -139,10 +139,10 @@ CHECKS.update({
     "C13": dict(
         category="exploration", engine="E1+G-xsd", design_ref="DESIGN.md 2.5 (G-xsd), 3/C13",
         technique="bounded-exhaustive enumeration of hidden regular models x sample-document sets, generator run on the samples alone, strict re-parse and infoset / JSON-value comparison of every sample",
-        text=("XML: every hidden regular model (G-xsd base + <= 1 (thorough 2) of 22 structure features, canonical value spellings) x every set of 1-3 (thorough up to 4) libxml2-validated instance documents with <= 2 "
-              "(thorough 3) non-minimal answers in total; the schema is discarded and classes are generated from the samples alone. JSON: every hidden key->kind model (<= 2 levels, <= 2 keys per object, 9 kinds) "
+        text=("XML: every hidden regular model (G-xsd base + <= 1 of 21 structure features, canonical value spellings) x every set of 1-3 libxml2-validated instance documents with <= 2 non-minimal answers in "
+              "total (thorough: four passes (features, samples, answers) = (2,2,2), (2,3,1), (1,4,2), (1,3,3)); the schema is discarded and classes are generated from the samples alone. JSON: every hidden key->kind model (<= 2 levels, <= 2 keys per object, 9 kinds) "
               "x every set of 1-3 distinct documents (keys present / absent / null, arrays of 0-2 items). Every sample must parse strictly into the generated root class and re-serialize to the same infoset / JSON value."),
-        note="stand-ins for jinja2/toposort/click/ruff; JSON comparison modulo key order, explicit nulls and empty arrays; two open known findings (merged samples lose sequence groups; nil in one sample loses values in the others)"),
+        note="stand-ins for jinja2/toposort/click/ruff; JSON comparison modulo key order, explicit nulls and empty arrays; xs:all with varying child order is outside 'regular'; four open known findings (merged samples lose sequence groups; three around xsi:nil in samples)"),
     "C16": dict(
         category="exploration", engine="E1+G-dtd", design_ref="DESIGN.md 3/C16",
         technique="bounded-exhaustive enumeration of generated DTDs x generator option sets x DTD-valid instance documents, with libxml2 as DTD validator and expat+libxml2 as infoset oracle",
